@@ -17,4 +17,23 @@ def ndistLine (ts : List String) : String :=
   | some [a, b, mx] => showRat (numDist a b mx)
   | _ => "bad-op"
 
+/-- `TDIST kind args… max`: `get_numeric_types_distance` for two values of one kind
+(`time h m s us h' m' s' us'`, `datetime us us'`, `date ord ord'`, `timedelta us us'`) -/
+def tdistLine (ts : List String) : String :=
+  let out (r : Option Rat) : String := match r with | some q => showRat q | none => "none"
+  match ts with
+  | ["time", h, m, s, u, h', m', s', u', mx] =>
+    (match [h, m, s, u, h', m', s', u'].mapM String.toNat?, parseRat mx with
+     | some [h, m, s, u, h', m', s', u'], some mx => out (typedDist (fun _ => 0) (.time h m s u) (.time h' m' s' u') mx)
+     | _, _ => "bad-op")
+  | [kind, a, b, mx] =>
+    (match a.toInt?, b.toInt?, parseRat mx with
+     | some a, some b, some mx =>
+       if kind = "datetime" then out (typedDist (fun _ => 0) (.datetime a) (.datetime b) mx)
+       else if kind = "date" then out (typedDist (fun _ => 0) (.date a) (.date b) mx)
+       else if kind = "timedelta" then out (typedDist (fun _ => 0) (.timedelta a) (.timedelta b) mx)
+       else "bad-op"
+     | _, _, _ => "bad-op")
+  | _ => "bad-op"
+
 end Dist
